@@ -1103,6 +1103,9 @@ class Translator:
         if spec.get("mode") == "smcloop":
             from . import loop2lean
             return loop2lean.translate(self, name, spec, fn)
+        if spec.get("mode") == "ctx":
+            from . import ctx2lean
+            return ctx2lean.translate(self, name, spec, fn)
         env: dict = {}
         params: list = []          # (lean name, kind, origin)
         # objects (`self`, `samples`): their fields become parameters
